@@ -42,6 +42,8 @@ def _target_src(kind, a):
         return f"#[typeshare]\n{a}pub struct Target;\n"
     if kind == "newtype_struct":
         return f"#[typeshare]\n{a}pub struct Target(String);\n"
+    if kind == "jvm_inline":          # a newtype that Kotlin writes as an inline value class (another definition site of that backend)
+        return f'#[typeshare(kotlin = "JvmInline")]\n{a}pub struct Target(String);\n'
     if kind == "sas_struct":          # shared as an alias of another type; the container's rename_all is about its fields, not its name
         return f'#[typeshare(serialized_as = "String")]\n#[serde(rename_all = "camelCase")]\n{a}pub struct Target {{ pub inner_part: u32 }}\n'
     if kind == "sas_enum":
@@ -363,6 +365,8 @@ def run(chk):
         kind_dim = case["kind"]
         if kind_dim in ("sas_struct", "sas_enum") and sib_key(lang, dict(case, kind="-"), site) in bad_alias:
             kind_dim = "alias"
+        if kind_dim == "jvm_inline" and not lang.startswith("kotlin"):
+            kind_dim = "newtype_struct"          # outside Kotlin the argument kotlin = "JvmInline" is inert: the item IS a newtype struct (one root cause)
         chk.mismatch(f"C09/{where}{ident_dim}/{kind_dim if not site.startswith('second') else 'struct'}/{site_dim}/{'renamed' if e['target'].get('rename') else 'plain'}/"
                      f"{'prefix' if e['prefix'] else 'noprefix'}/ref={form}/def={'present' if defined else 'absent'}",
                      f"{lang}: {site} reference to {e['target']} is spelled `{e['ref']}`, definition name required `{exp}`; definitions: {e['defs']}",
